@@ -1,5 +1,6 @@
 import QuantemModel.Core.Proto
 import QuantemModel.Model.PtychoOps
+import QuantemModel.Model.PtychoOpsExt
 open Lean QuantemModel QuantemModel.Proto QuantemModel.PtychoOps
 
 /-! JSON-lines driver for Model/PtychoOps.lean.  Floats cross as IEEE bit patterns.
@@ -39,6 +40,42 @@ def imgsToJson (xs : List (Img Float)) : Json := Json.arr (xs.map imgToJson).toA
 def fl (j : Json) (k : String) : Except String Float := do floatOfJson (← field j k)
 def intRows (j : Json) : Except String (List (List Int)) := do (← j.getArr?).toList.mapM intList
 def intListToJson (x : List Int) : Json := Json.arr (x.map fun i => Json.num (JsonNumber.fromInt i)).toArray
+
+
+/-! growth 5: checked scatter / histories, backward chain, sessions -/
+def exceptIntsToJson (r : Except OpErr (List Int)) : Json :=
+  match r with
+  | .ok out => okJson (intListToJson out)
+  | .error e => errJson e.name
+
+def kvList (j : Json) : Except String (List (String × String)) := do
+  (← j.getArr?).toList.mapM fun e => do
+    let a ← e.getArr?
+    if a.size != 2 then throw "kv pair" else pure ((← a[0]!.getStr?), (← a[1]!.getStr?))
+
+def kvToJson (d : CDict) : Json := Json.arr (d.map fun kv => Json.arr #[Json.str kv.1, Json.str kv.2]).toArray
+
+def sessOpOfJson (j : Json) : Except String SessOp := do
+  match (← strField j "k") with
+  | "ptycho_set" =>
+      let es ← (← arrField j "entries").toList.mapM fun e => do
+        let cat ← strField e "cat"
+        match e.getObjVal? "items" with
+        | .ok (.arr a) => pure (cat, some (← kvList (.arr a)))
+        | _ => pure (cat, (none : Option (List (String × String))))
+      pure (.ptychoSet es)
+  | "obj_set" => pure (.objSet (← kvList (← field j "items")))
+  | "obj_add" => pure (.objAdd (← strField j "key") (← strField j "value"))
+  | "reset" => pure .resetRecon
+  | k => throw s!"unknown session op {k}"
+
+def runSession (s : Session) (numSlices : Nat) : List SessOp → List Json
+  | [] => []
+  | op :: rest =>
+    let r := s.step op
+    Json.mkObj [("raised", Json.bool r.2), ("obj", kvToJson r.1.obj), ("probe", kvToJson r.1.probe),
+                ("dset", kvToJson r.1.dset), ("neutral", Json.bool (modulusNeutral numSlices r.1.obj))]
+      :: runSession r.1 numSlices rest
 
 def step (st : Unit) (j : Json) : Unit × Json :=
   match (do
@@ -131,6 +168,36 @@ def step (st : Unit) (j : Json) : Unit × Json :=
         let a ← rowsOfJson (← field j "A")
         let w ← imgsOfJson (← field j "waves")
         pure (okJson (imgsToJson (gradientStep np a w)))
+    | "scatter_history" =>
+        let calls ← (← arrField j "calls").toList.mapM fun c => do
+          pure ({ n := (← natField c "n"), patches := (← intList (← field c "patches")), idx := (← intList (← field c "idx")) } : ScatterCall Int)
+        pure (okJson (Json.arr ((runScatterHistory (0 : Int) calls).map exceptIntsToJson).toArray))
+    | "gather_checked_int" =>
+        let obj ← intList (← field j "obj")
+        let idx ← intList (← field j "idx")
+        pure (exceptIntsToJson (gatherChecked obj 0 idx))
+    | "sum_patches_cx_checked" =>
+        let n ← natField j "n"
+        let p ← cflatOfJson (← field j "patches")
+        let idx ← intList (← field j "idx")
+        match sumPatchesCxChecked n p idx with
+        | .ok out => pure (okJson (cflatToJson out))
+        | .error e => pure (errJson e.name)
+    | "backward_gradient" =>
+        let patches ← imgsOfJson (← field j "patches")
+        let props ← imgsOfJson (← field j "props")
+        let g ← imgOfJson (← field j "g")
+        pure (okJson (imgToJson (backwardGradient patches props g)))
+    | "estimate_intensities" =>
+        let w ← imgsOfJson (← field j "waves")
+        pure (okJson (rowsToJson (estimateIntensities w)))
+    | "session" =>
+        let od ← kvList (← field j "obj_defaults")
+        let pd ← kvList (← field j "probe_defaults")
+        let dd ← kvList (← field j "dset_defaults")
+        let ns ← natField j "num_slices"
+        let ops ← (← arrField j "ops").toList.mapM sessOpOfJson
+        pure (okJson (Json.arr (runSession (Session.fresh od pd dd) ns ops).toArray))
     | _ => throw s!"unknown op {op}" : Except String Json) with
   | .ok r => (st, r)
   | .error e => (st, errJson s!"driver:{e}")
